@@ -69,6 +69,12 @@ func (b *builder) unk(format string, args ...any) {
 func Check(ws *WS) *Result {
 	b := &builder{ws: ws, t: NewTable(ws)}
 	b.resolveEnumTypes()
+	// `features` written as a message literal, or a path through an extension of FeatureSet: the
+	// model reads features only in the `features.<name> = VALUE` form, so nothing that depends on
+	// resolved features can be decided
+	if src := ws.String(); strings.Contains(src, "features = {") || strings.Contains(src, "features.(") {
+		b.unk("[hard] features written as a message literal or through an extension")
+	}
 	files := map[string]*descriptorpb.FileDescriptorProto{}
 	// rule 14: imports
 	for _, fl := range ws.Files {
